@@ -149,6 +149,10 @@ def run(ctx):
                       'item is written first and rejected afterwards, with no recovery')
     for ic in icalls:
         row = ic.args[0] if ic.args else None
+        if isinstance(row, ast.Name):
+            # a local that holds the row literal
+            from ..pathcond import inline as _inl
+            row = _inl(step, row)
         good = False
         if isinstance(row, ast.List) and len(row.elts) == 1 and isinstance(row.elts[0], ast.List) and \
                 len(row.elts[0].elts) == 2:
